@@ -46,6 +46,9 @@ static GLOBAL: StdMutex<Global> = StdMutex::new(Global {
     logging: true,
 });
 static PARALLELISM: AtomicUsize = AtomicUsize::new(2);
+/// (requested capacity, capacity to use instead); (0, 0) = no override.
+static CAP_FROM: AtomicUsize = AtomicUsize::new(0);
+static CAP_TO: AtomicUsize = AtomicUsize::new(0);
 
 fn global() -> ::std::sync::MutexGuard<'static, Global> {
     GLOBAL.lock().unwrap_or_else(|e| e.into_inner())
@@ -114,6 +117,14 @@ pub fn live_threads() -> usize {
 /// Threads that ended by panicking in this execution: (thread, message).
 pub fn panics() -> Vec<(usize, String)> {
     global().panics.clone()
+}
+
+/// Makes `bounded(from)` create a channel of capacity `to` (a queue length is a tuning constant:
+/// the protocol has to be correct for any positive capacity; a small one makes the blocking paths
+/// reachable in short executions). `from == 0` removes the override.
+pub fn set_capacity_override(from: usize, to: usize) {
+    CAP_FROM.store(from, Ordering::SeqCst);
+    CAP_TO.store(to, Ordering::SeqCst);
 }
 
 /// Sets the answer of `available_parallelism`.
@@ -358,6 +369,12 @@ pub mod crossbeam_channel {
 
     /// Bounded MPMC FIFO with crossbeam-channel's documented blocking and disconnection semantics.
     pub fn bounded<T: 'static>(cap: usize) -> (Sender<T>, Receiver<T>) {
+        let from = super::CAP_FROM.load(::std::sync::atomic::Ordering::SeqCst);
+        let cap = if from != 0 && cap == from {
+            super::CAP_TO.load(::std::sync::atomic::Ordering::SeqCst)
+        } else {
+            cap
+        };
         let id = {
             let mut g = global();
             let i = g.next_chan;
